@@ -202,3 +202,40 @@ pub open spec fn skesk_v5_layout(sym: u8, aead: u8, s2k: Seq<u8>, iv: Seq<u8>, e
 pub open spec fn skesk_other_layout(version: u8, data: Seq<u8>) -> Seq<u8> { seq![version] + data }
 /// RFC 9580 5.13.2-5.13.4 (Table 25): AEAD algorithm ids and nonce ("IV") sizes: EAX 1 / 16, OCB 2 / 15, GCM 3 / 12
 pub open spec fn aead_iv_len(id: u8) -> int { if id == 1 { 16 } else if id == 2 { 15 } else if id == 3 { 12 } else { 0 } }
+
+// ---- RFC 9580 5.1: Public-Key Encrypted Session Key packet (type ID 1) ---------------------------
+// 5.1.1 version 3:  A one-octet version number with value 3.  An eight-octet number that gives the Key ID of the
+//   public key to which the session key is encrypted.  A one-octet number giving the public-key algorithm used.
+//   A series of values comprising the encrypted session key (algorithm-specific).
+pub open spec fn pkesk_v3_layout(key_id: Seq<u8>, alg: u8, values: Seq<u8>) -> Seq<u8>
+    recommends key_id.len() == 8
+{
+    seq![3u8] + key_id + seq![alg] + values
+}
+// 5.1.2 version 6:  A one-octet version number with value 6.  A one-octet size of the following two fields (may be
+//   zero for an anonymous recipient).  A one-octet key version number.  The fingerprint of the public key.
+//   A one-octet number giving the public-key algorithm used.  The algorithm-specific values.
+/// `recipient` = key version octet ++ fingerprint, or empty for an anonymous recipient
+pub open spec fn pkesk_v6_layout(recipient: Seq<u8>, alg: u8, values: Seq<u8>) -> Seq<u8>
+    recommends recipient.len() <= 255
+{
+    seq![6u8, recipient.len() as u8] + recipient + seq![alg] + values
+}
+/// a version this implementation does not know: the body after the version octet is kept opaque
+pub open spec fn pkesk_other_layout(version: u8, data: Seq<u8>) -> Seq<u8> { seq![version] + data }
+// 5.1.5 ECDH:  MPI of an EC point.  A one-octet size, followed by a symmetric key encoded using the method of 11.5.
+pub open spec fn pkesk_ecdh_layout(point_mpi: Seq<u8>, esk: Seq<u8>) -> Seq<u8>
+    recommends esk.len() <= 255
+{
+    point_mpi + seq![esk.len() as u8] + esk
+}
+// 5.1.6 X25519 / 5.1.7 X448:  32 / 56 octets representing an ephemeral public key.  A one-octet size of the following
+//   fields.  The one-octet algorithm identifier, if it was passed (in the case of a v3 PKESK packet).  The encrypted
+//   session key.   (draft-ietf-openpgp-pqc ML-KEM composites: the same, with the ML-KEM ciphertext after the ECDH one:
+//   `kem` is that extra fixed-length field, empty for X25519 / X448.)
+pub open spec fn pkesk_x_size(sym: Option<u8>, esk: Seq<u8>) -> int { esk.len() + (if sym is Some { 1int } else { 0int }) }
+pub open spec fn pkesk_x_layout(ephemeral: Seq<u8>, kem: Seq<u8>, sym: Option<u8>, esk: Seq<u8>) -> Seq<u8>
+    recommends pkesk_x_size(sym, esk) <= 255
+{
+    ephemeral + kem + seq![pkesk_x_size(sym, esk) as u8] + (match sym { Some(a) => seq![a], None => Seq::<u8>::empty() }) + esk
+}
